@@ -206,7 +206,6 @@ End Sets.
 
 Section TieLabelled.
   Context {lca node_id : Type} (id_eqb : node_id -> node_id -> bool).
-  Hypothesis id_eqb_spec : forall x y, reflect (x = y) (id_eqb x y).
   Notation tree := (G.TreeNode node_id).
   Notation sin := (G.sin_state fam path lca node_id).
   Notation sout := (G.sout_state fam path lca node_id).
@@ -270,7 +269,7 @@ Section TieLabelled.
   Proof.
     destruct self as [[ot l leafsp c lsy] rec sy o]. unfold co_of.
     cbn [G.sout_input G.sout_object_species G.sin_costs G.sin_leaf_object_species].
-    induction t as [i|i a IHa b IHb]; unfold scost_rec_p in *.
+    induction t as [i|i a IHa b IHb]; [unfold scost_rec_p|unfold scost_rec_p in IHa, IHb |- *].
     - cbn. rewrite ?(path_eqb_sym (leafsp i) (rec i)). destruct (path_eqb (rec i) (leafsp i)); reflexivity.
     - cbn [G.gen_super_cost_rec].
       change (G.gen_super_node_event path_eqb _ _ _ _ ?s ?n) with (snode_event_p s n).
@@ -312,9 +311,9 @@ Section TieLabelled.
       | None => G.Fail G.AssertionError
       end.
   Proof.
-    intros Hs. induction t as [i|i a IHa b IHb]; intros total; unfold uloop in *.
-    - cbn. f_equal. lia.
-    - cbn [G.gen_super_unordered_labeling_cost_for1 G.TreeNode_is_leaf negb].
+    clear id_eqb. intros Hs. induction t as [i|i a IHa b IHb]; intros total.
+    - unfold uloop. cbn. f_equal. lia.
+    - unfold uloop in IHa, IHb |- *. cbn [G.gen_super_unordered_labeling_cost_for1 G.TreeNode_is_leaf negb].
       change (G.gen_super_node_event path_eqb _ _ _ _ ?s ?n) with (snode_event_p s n).
       rewrite gen_super_node_event_eq.
       cbn [node_event_spec G.sout_input G.sout_object_species G.sin_leaf_object_species G.TreeNode_id ulab_rec ltree_of].
@@ -345,15 +344,17 @@ Section TieLabelled.
   Theorem gen_unordered_labeling_cost_eq (self : sout) : 0 <= c_sloss (co_of self) ->
     sunordered_p self = lab_res self (unordered_labeling_cost (co_of self) (lt_of self)).
   Proof.
-    intros Hs. destruct self as [[ot l leafsp c lsy] rec sy o].
-    unfold sunordered_p, G.gen_super_unordered_labeling_cost, unordered_labeling_cost, lt_of, co_of in *.
-    cbn [G.sout_input G.sout_object_species G.sout_syntenies G.sin_object_tree G.sin_costs ccosts c_sloss] in *.
+    clear id_eqb. intros Hs. destruct self as [[ot l leafsp c lsy] rec sy o].
+    unfold sunordered_p, G.gen_super_unordered_labeling_cost, unordered_labeling_cost, lt_of, co_of in Hs |- *.
+    cbn [G.sout_input G.sout_object_species G.sout_syntenies G.sin_object_tree G.sin_costs ccosts c_sloss] in Hs |- *.
     cbv zeta.
     change (G.gen_super_unordered_labeling_cost_for1 fam_eqb path_eqb _ _ _ _ ?inp ?r ?s ?o ?r ?sl)
       with (uloop inp r s o sl).
     rewrite (uloop_eq _ _ _ _ _ Hs). destruct (ulab_rec (ltree_of rec sy ot)) as [k|]; reflexivity.
   Qed.
   (** ** [_ordered_labeling_cost] *)
+  (* from here on: the equality test on node identifiers decides equality (Python: identity of node objects) *)
+  Hypothesis id_eqb_spec : forall x y, reflect (x = y) (id_eqb x y).
   (* the local dictionary [masks]: the list of its stores, newest first *)
   Notation dget := (G.dict_get id_eqb).
   Lemma dget_cons_eq (k : node_id) (v : N) d : dget ((k, v) :: d) k = Some v.
@@ -467,7 +468,7 @@ Section TieLabelled.
   Proof.
     intros Hs. pose proof (gen_ordered_labeling_cost_eq self) as HO.
     pose proof (gen_unordered_labeling_cost_eq self Hs) as HU.
-    unfold slabeling_cost_p, G.gen_super_labeling_cost, labeling_cost, sordered_p, sunordered_p in *.
+    unfold slabeling_cost_p, G.gen_super_labeling_cost, labeling_cost, sordered_p, sunordered_p in HO, HU |- *.
     destruct self as [inp rec sy o]. cbn [G.sout_ordered]. destruct o.
     - rewrite HO. destruct (ordered_labeling_cost _ _); reflexivity.
     - cbv zeta beta. rewrite HU. destruct (unordered_labeling_cost _ _); reflexivity.
@@ -483,7 +484,7 @@ Section TieLabelled.
   Proof.
     intros Hs. pose proof (gen_super_reconciliation_cost_eq self) as HR.
     pose proof (gen_labeling_cost_eq self Hs) as HL.
-    unfold scost_p, G.gen_super_cost, total_cost, sreconciliation_cost_p, slabeling_cost_p in *.
+    unfold scost_p, G.gen_super_cost, total_cost, sreconciliation_cost_p, slabeling_cost_p in HR, HL |- *.
     destruct self as [inp rec sy o]. rewrite HR, HL.
     destruct (labeling_cost _ _ _); reflexivity.
   Qed.
